@@ -24,6 +24,16 @@ SUITES = {
     "fault_two":   ("faults", "heap",  ["--two"],             "debug",   (18, 180), (0, 0)),
     "fault_set":   ("faults", "heap",  ["--set", "--two"],    "debug",   (18, 180), (0, 0)),
     "fault_zst":   ("faults", "zst",   [],                    "debug",   (9, 45),   (0, 0)),
+    "par_heap":    ("random", "heap",  ["--par"],            "release", (12, 120), (150, 150)),
+    "par_two":     ("random", "plain", ["--par", "--two"],   "debug",   (12, 120), (150, 150)),
+    "par_set":     ("random", "heap",  ["--par", "--set", "--two"], "release", (12, 120), (150, 150)),
+    "serde_map":   ("random", "heap",  ["--serde", "--two"],  "debug",   (12, 120), (150, 150)),
+    "serde_set":   ("random", "heap",  ["--serde", "--two", "--set"], "debug", (12, 120), (150, 150)),
+    "serde_zst":   ("random", "zst",   ["--serde", "--two", "--set"], "release", (6, 30), (100, 100)),
+    "meta_heap":   ("meta",   "heap",  [],                    "debug",   (12, 120), (0, 0)),
+    "meta_plain":  ("meta",   "plain", [],                    "release", (12, 120), (0, 0)),
+    "meta_set":    ("meta",   "heap",  ["--set"],             "debug",   (12, 120), (0, 0)),
+    "meta_zst":    ("meta",   "zst",   [],                    "debug",   (6, 30),   (0, 0)),
     "defects":     ("scripts", None,   [],                    "both",    (1, 1),    (0, 0)),
 }
 
@@ -63,7 +73,13 @@ PROPS = {
     "C11": dict(suites=["two_heap", "two_plain_rel", "set_two", "defects"], mc=[]),
     "C12": dict(suites=["core_heap", "rel_heap", "core_plain", "core_zst", "defects"], mc=["Small"]),
     "C13": dict(suites=["set_heap", "set_two", "set_zst"], mc=["Small"]),
+    "C14": dict(suites=["meta_heap", "meta_plain", "meta_set", "meta_zst"], mc=[],
+                monitors=["eq_is_content_equality", "debug_shows_contents", "lookup_result", "set_contains_result",
+                          "iter_yields_each_once", "iter_exact_len", "iter_complete", "len_is_sum", "contents"]),
+    "C15": dict(suites=["par_heap", "par_two", "par_set"], mc=[]),
+    "C16": dict(suites=["serde_map", "serde_set", "serde_zst"], mc=[]),
 }
 
 LEVEL = {p: "model_checking" for p in PROPS}
 LEVEL["C07"] = "fault_enumeration"
+LEVEL["C15"] = "exploration"
